@@ -113,7 +113,7 @@ pub fn run(ctx: &Ctx) -> Result<(), String> {
     let hist_n = AtomicU64::new(0);
     let transitions = AtomicU64::new(0);
     {
-        let configs: Vec<(usize, usize, usize)> = ctx.tier.pick(vec![(2, 3, 6)], vec![(2, 4, 8), (3, 3, 7)]); // (W, K, depth)
+        let configs: Vec<(usize, usize, usize)> = ctx.tier.pick(vec![(2, 3, 6)], vec![(2, 4, 8), (3, 3, 6)]); // (W, K, depth)
         for (w, k, depth) in configs {
             let al: Vec<MEv> = (0..w).map(MEv::Deliver).chain((0..w).map(MEv::Step)).collect();
             let reqs: Vec<Version> = (0..k).map(|i| if i % 2 == 0 { Version::Classic } else { Version::Ietf13 }).collect();
@@ -152,8 +152,8 @@ pub fn run(ctx: &Ctx) -> Result<(), String> {
         for (n, k, bound) in plans {
             for code in 0..n.pow(k as u32) {
                 let dist: Vec<usize> = (0..k).map(|i| (code / n.pow(i as u32)) % n).collect();
-                // worker symmetry: keep distributions whose first request goes to worker 0 (quick)
-                if ctx.tier == Tier::Quick && dist[0] != 0 {
+                // worker symmetry: keep distributions whose first request goes to worker 0
+                if dist[0] != 0 {
                     continue;
                 }
                 let scn = Scenario {
@@ -169,7 +169,7 @@ pub fn run(ctx: &Ctx) -> Result<(), String> {
                     probe_at_end: false,
                 };
                 let d2 = dist.clone();
-                let s = explore(ctx, "controlled-schedule", &scn, &move |slot: &Slot| env_for(slot, n, &d2, &versions), bound, ctx.tier.pick(1500, 30000), Duration::from_secs(ctx.tier.pick(25, 300)))?;
+                let s = explore(ctx, "controlled-schedule", &scn, &move |slot: &Slot| env_for(slot, n, &d2, &versions), bound, ctx.tier.pick(1500, 30000), Duration::from_secs(ctx.tier.pick(25, 90)))?;
                 sched.merge(s);
             }
         }
@@ -247,7 +247,7 @@ pub fn run(ctx: &Ctx) -> Result<(), String> {
     ctx.cov("sampled_conformance", json!(sampled));
     ctx.cov("caps_hit", json!(sched.caps_hit));
     ctx.cov("exhaustive", json!(sched.caps_hit.is_empty()));
-    ctx.cov("bound", json!({"in_process": ctx.tier.pick("W=2,K=3,depth 6", "W=2,K=4,depth 8; W=3,K=3,depth 7"), "controlled": ctx.tier.pick("N=2,K=2, preemption bound 2, distributions up to worker symmetry", "N in {2,3}, K in {2,3}, every distribution, preemption bound 3/2/2/1")}));
+    ctx.cov("bound", json!({"in_process": ctx.tier.pick("W=2,K=3,depth 6", "W=2,K=4,depth 8; W=3,K=3,depth 6"), "controlled": ctx.tier.pick("N=2,K=2, preemption bound 2, distributions up to worker symmetry", "N in {2,3}, K in {2,3}, every distribution up to worker symmetry, preemption bound 3/2/2/1, 90 s wall cap per scenario")}));
     ctx.cov("rule", json!("(1) in-process: W real Server objects from one seed; all event sequences of the depth bound over {deliver(next request -> worker w), step(w)} (the harness plays the kernel's distribution), completed to quiescence: exactly one reply per request, from the worker it was delivered to, authentic for that request under the single long-term key, per-responder delegated keys stable and distinct. (2) the real server process under the controlled scheduler: K requests whose source ports are chosen through the learned port->worker map to realise each distribution; schedules over the hook points (loop_top, polled, collected, sent, flag_check of each worker, environment sends) explored with iterative preemption bounding; same oracle plus no thread exit/panic and every worker back at loop_top. (3) sampled: free-running binary with 64 concurrent closed-loop reference clients (quick: 15 rounds, num_workers {4,16}; thorough: 60 rounds, {1,2,4,8,16}); a failure observed there is a real failing execution, its absence is not a proof."));
     ctx.sample(json!({"kind":"multi","workers":2,"events":["Deliver(0)","Deliver(1)","Step(1)","Deliver(0)","Step(0)"]}));
     ctx.sample(json!({"kind":"schedule","scenario":"load-n2-k2-dist[0, 1]","schedule":["env:send(c3,C)","worker-0@loop_top(0)","env:send(c0,I)","worker-1@loop_top(0)","worker-0@polled(1)"]}));
